@@ -128,7 +128,7 @@ Lemma des_prim_zero_tail : forall V E front kz k q, blen front <= q ->
   (exists p', des_prim V E (front ++ zeros kz) k q = DOk 0 p' /\ q <= p').
 Proof.
   intros V E front kz k q Hq. rewrite des_prim_unfold. unfold dec_align.
-  set (a := match V with V1 => sk_size k | V2 => Z.min (sk_size k) 4 end).
+  match goal with |- context [padlen q ?x] => set (a := x) end.
   assert (Ha : 0 < a) by (pose proof (sk_size_pos k); subst a; destruct V; lia).
   pose proof (padlen_range q a Ha) as Hpad.
   destruct (seek_cases (front ++ zeros kz) q (padlen q a)) as [-> | ->]; cbn [dbind]; [left; eauto|].
